@@ -439,3 +439,15 @@ def contracts():
     c = _c13.metaclass_setattr_contract()
     c.prop = "C12"
     return _c12_base4() + [c]
+
+
+# installing the merged slot values: mutable containers are the Parameter's own copies before
+# `_update_state()` may mutate them (verified for C11)
+_c12_base5 = contracts
+
+
+def contracts():
+    from contracts import c11 as _c11
+    c = _c11.install_slots_contract()
+    c.prop = "C12"
+    return _c12_base5() + [c]
